@@ -171,3 +171,54 @@ func HarnessC06Run() {
 	<-runDone
 	vrt.Assert(r.Run(context.Background()) != nil, "a second Run returns an error")
 }
+
+// HarnessC06StopThenClose: the handler is stopped (its loop ends) while an invocation is still running, then
+// Close is called: nil only when that invocation is over.
+func HarnessC06StopThenClose() {
+	r, _ := NewRouter(RouterConfig{}, watermill.NopLogger{})
+	st := &c06State{}
+	sub := &countingSubscriber{} // closes its channel when the subscription context ends
+	hh := r.AddNoPublisherHandler("h", "in", sub, func(m *Message) error {
+		st.enter()
+		vrt.Yield()
+		st.leave()
+		return nil
+	})
+	r.isRunning = true
+	ctx, cancel := context.WithCancel(context.Background())
+	defer cancel()
+	vrt.Assert(r.RunHandlers(ctx) == nil, "handlers started")
+	m := NewMessage("m", nil)
+	sub.chans[0] <- m
+	<-hh.Started()
+	hh.Stop()
+	<-hh.Stopped()
+	err := r.Close()
+	st.closeReturned(err)
+	if err == nil {
+		s := settlementOf(m)
+		st.mu.Lock()
+		started := st.started
+		st.mu.Unlock()
+		vrt.Assert(started == 0 || s != 0, "a message whose handling started is settled before Close returns nil")
+	}
+}
+
+// HarnessC06CloseDuringStart: Close arrives while RunHandlers is still starting two handlers: every call returns.
+func HarnessC06CloseDuringStart() {
+	r, _ := NewRouter(RouterConfig{}, watermill.NopLogger{})
+	r.AddNoPublisherHandler("a", "ta", &directSubscriber{}, func(m *Message) error { return nil })
+	r.AddNoPublisherHandler("b", "tb", &directSubscriber{}, func(m *Message) error { return nil })
+	r.isRunning = true
+	ctx, cancel := context.WithCancel(context.Background())
+	defer cancel()
+	done := make(chan struct{}, 1)
+	go func() {
+		vrt.MustFinish()
+		_ = r.RunHandlers(ctx) // may succeed or report that the router is closing: it must return
+		done <- struct{}{}
+	}()
+	_ = r.Close() // must return (nil or timeout error)
+	<-done
+	vrt.Assert(r.IsClosed(), "closed")
+}
